@@ -23,10 +23,25 @@ import (
 	"github.com/goatcms/goatcore/app/scope/datascope"
 )
 
-const (
-	mustFinish = 10 * time.Second       // "wait generously for what must happen"
-	probeGrace = 400 * time.Microsecond // how long a probe that is expected to block is given to intrude
-)
+const probeGrace = 400 * time.Microsecond // how long a probe that is expected to block is given to intrude
+
+// mustFinish: "wait generously for what must happen" (10 s; the check shortens it only while it
+// minimises an already failing case, the minimised case is confirmed with the full time again).
+var mustFinish = 10 * time.Second
+
+// after this many hangs the process stops executing ops (every further result is `abort`): a tree in
+// which calls that must return do not return would otherwise cost 10 s per case
+const maxHangs = 3
+
+var hangs int
+
+func init() {
+	if v := os.Getenv("DS_MUSTFINISH_MS"); v != "" {
+		if n, err := strconv.Atoi(v); err == nil && n > 0 {
+			mustFinish = time.Duration(n) * time.Millisecond
+		}
+	}
+}
 
 func showVal(v interface{}) string {
 	if v == nil {
@@ -229,6 +244,7 @@ func (se *session) exec(line string) string {
 	}
 	if f[0] == "reset" {
 		*se = *newSession()
+		se.aborted = hangs >= maxHangs
 		return "ok"
 	}
 	if se.aborted {
@@ -296,6 +312,7 @@ func (se *session) exec(line string) string {
 	r, ok := await(start(run), mustFinish)
 	if !ok {
 		se.aborted = true
+		hangs++
 		return "hang"
 	}
 	if f[0] == "commit" {
@@ -310,6 +327,7 @@ func (se *session) exec(line string) string {
 				if !ok {
 					pr = "hang"
 					se.aborted = true
+					hangs++
 				}
 				items = append(items, fmt.Sprintf("%d:%s", pid, pr))
 				se.pending = append(se.pending[:i], se.pending[i+1:]...)
